@@ -494,3 +494,16 @@ def shrinkers(spec):
             yield dict(sp, tree=_replace(sp['tree'], path, new), mode='enumerate',
                        exc_seed=sp.get('exc_seed', 0), pairs=0)
     return [('alts', smaller_trees)]
+
+
+def extra_evidence(st):
+    c = st.counters
+    return dict(fault_kinds={
+        'raise_at_entry (configured)': c.get('configured_raise_entry', 0),
+        'raise_after_children (configured)': c.get('configured_raise_after', 0),
+        'non_doc_return (configured)': c.get('configured_nondoc_entry', 0) + c.get('configured_nondoc_after', 0),
+        'faults fired (all kinds)': c.get('fired', 0),
+        'fault pairs': c.get('pair_cases', 0)},
+        exception_classes=sorted(EXC), payloads=PAYLOADS, nondoc_values=sorted(NONDOCS),
+        exhaustive_per_tree='all single faults for up to %d sites per tree' % MAX_SITES,
+        simulated_time='fault cases executed (field simulated_steps)')
